@@ -232,7 +232,13 @@ func runUnit(spec *Spec, o *checkOpts, openKnown map[string]bool, openList []Kno
 		}
 		add(r.Res.Violations, "")
 		for id, pr := range r.Probes {
-			add(pr.Violations, id)
+			var in []sym.Violation
+			for _, v := range pr.Violations {
+				if v.Known == id {
+					in = append(in, v)
+				}
+			}
+			add(in, id)
 		}
 		res := r.Res
 		for _, a := range res.Aborts {
